@@ -132,6 +132,9 @@ class _FailPeri(MetaPeripheral):
         return [('k', 'v')]
 
 
+_SENTINEL = object()
+
+
 class _Callable(object):
     def __call__(self):
         return Response('c')
@@ -151,7 +154,10 @@ def _host(name_i, val_i, mount, fail_mode, plain_i):
     resources = {SECRET_NAMES[name_i]: mark_val, PLAIN_NAMES[plain_i]: 'PLAINVALUE'}
     peris = [_FailPeri(fail_mode)] if fail_mode else []
     meta = MetaApplication(peripherals=peris)
+    import re as _re
     routes = [('/', lambda: Response('root')), ('/fn/<x>', lambda x: Response(x)), ('/obj', _Callable()), ('/meth', _Holder().method),
+              # parameters nobody provides, with defaults of every kind (sentinel object, compiled regex, function, bytes, set)
+              ('/dflt', lambda flag=_SENTINEL, pat=_re.compile('x+'), cb=len, raw=b'\xff', tags=frozenset(['t']), n=3, s='txt': Response('d')),
               ('/static_m', _Holder.smethod), GET('/ctx', lambda: {'a': 1}, render_basic), ('/files/', StaticApplication(M._ASSET_PATH))]
     mws = [SignedCookieMiddleware(secret_key=MARK + '-KEY')]
     if mount == 0:
@@ -176,7 +182,12 @@ def _forms(s):
 def _meta_page(name_i, val_i, mount, fail_mode, plain_i):
     app, base = _host(name_i, val_i, mount, fail_mode, plain_i)
     cl = app.get_local_client()
-    for url in (base, base + 'json/'):
+    late = 'late_' + SECRET_NAMES[name_i]
+    for rnd, url in enumerate((base, base + 'json/', base, base + 'json/')):
+        if rnd == 2:
+            # the application grows after its meta page has been looked at: a new secret-named resource and a new route
+            app.resources[late] = _values()[val_i]
+            app.add(('/late', lambda: Response('late')))
         resp = cl.get(url)
         if resp.status_code != 200:
             return False
@@ -186,6 +197,8 @@ def _meta_page(name_i, val_i, mount, fail_mode, plain_i):
                 return False                       # the secret value, or the cookie signing key, in any escaping
         if SECRET_NAMES[name_i] not in body or 'REDACTED' not in body:
             return False                           # listed with the marker
+        if rnd >= 2 and (late not in body or body.count('REDACTED') < 2):
+            return False
         if 'PLAINVALUE' not in body:
             return False                           # other resources remain visible
         if (fail_mode == 1 or (fail_mode == 2 and not url.endswith('json/'))) and 'boom' not in body:
